@@ -36,7 +36,7 @@ func init() {
 
 func c07pool(r func(int) int, extra int) []*variants.Variant {
 	pool := valuePool(true)
-	defer func() { c07base = c07twins - 29 - 18 }()
+	defer func() { c07base = c07twins - 29 - 18 - 6 }()
 	pool = append(pool,
 		variants.VariantFromInteger(1<<53), variants.VariantFromInteger(1<<53+1), variants.VariantFromLong(1<<53+1), variants.VariantFromLong(-(1 << 53)),
 		variants.VariantFromLong(1<<60+1<<36+1), variants.VariantFromLong(-(1<<60 + 1<<36 + 1)), variants.VariantFromLong(1<<60+3<<36-1), variants.VariantFromInteger(1<<60+1<<36+1),
@@ -59,6 +59,9 @@ func c07pool(r func(int) int, extra int) []*variants.Variant {
 		pool = append(pool, variants.VariantFromDateTime(time.Unix(u, 0).In(zone("America/New_York"))), variants.VariantFromDateTime(time.Unix(u, 0).In(zone("Europe/Berlin"))),
 			variants.VariantFromLong(u))
 	}
+	// values whose host kind is not the variant's native one; instants before 1970 with a fraction
+	pool = append(pool, variants.NewVariant(int32(7)), variants.NewVariant(uint(9)), variants.NewVariant(uint32(11)), variants.VariantFromObject(int32(-3)),
+		variants.VariantFromDateTime(time.Unix(-1, 500000000).UTC()), variants.VariantFromDateTime(time.Unix(-86400, 1000000).UTC()))
 	c07twins = len(pool)
 	for i := 0; i < extra; i++ {
 		switch r(6) {
